@@ -77,7 +77,7 @@ def evaluate(ck, recs):
     roots = [r for r in roots if not (r.get("panic") or r.get("err"))]
     proofs = [r for r in proofs if not (r.get("panic") or r.get("err"))]
     roots = balance(roots, lambda r: r["kl"] * (1 + sum(len(b) for b in r["batches"])), 6)
-    proofs = balance(proofs, lambda r: r["kl"] * (1 + len(r["obs"])) * (1 + len(r["keys"])), 3)
+    proofs = balance(proofs, lambda r: r["kl"] * ((1 + len(r["obs"])) * (1 + len(r["keys"])) + 4 * sum(len(b) for b in r["batches"])), 3)
     rr = ck.coq_eval(IMPORTS, "root_case", "check_root", [root_term(r) for r in roots], shard=6, tag="root", timeout=1700)
     rp = ck.coq_eval(IMPORTS, "proof_case", "check_proof", [proof_term(r) for r in proofs], shard=3, tag="proof", timeout=1700)
     for rs, res, fn in ((roots, rr, "check_root"), (proofs, rp, "check_proof")):
@@ -140,9 +140,9 @@ def run(ck):
     if not binp:
         return
     if ck.tier == "quick":
-        args = ["-nroot", "32", "-nproof", "34", "-nev", "12", "-maxobs", "24"]
+        args = ["-nroot", "28", "-nproof", "30", "-nev", "10", "-maxobs", "28", "-nfull", "2", "-fullkl", "4"]
     else:
-        args = ["-nroot", "800", "-nproof", "800", "-nev", "200", "-maxobs", "40"]
+        args = ["-nroot", "800", "-nproof", "800", "-nev", "200", "-maxobs", "60", "-nfull", "12"]
     recs = corpus(ck, binp)
     main = run_capture(ck, binp, args)
     if main is None:
@@ -161,9 +161,10 @@ def run(ck):
                       "(shared prefix up to the last 12 bits), prefix (shared first 1..3 bytes) and subtree-crossing keys of "
                       "1, 2, 4 and 32 bytes; trie re-created from its root (NewTrie(root)) before random batches; each final map also "
                       "inserted as one shuffled batch into a fresh trie; CalculateEventRoot on random events; proofs for 1..5 query keys "
-                      "(present, absent neighbours, absent random, duplicates), each with up to 24 (quick) / 40 (thorough) single-field tamperings (root, value, "
-                      "query key bits, bitmap, requested key, each sibling hash changed/removed/added, query dropped, forged extra and "
-                      "forged deeper queries). Evaluations = roots compared + verification observations; distinct = by full input.")
+                      "(present, absent neighbours, absent random, duplicates), each with up to 30 (quick) / 60 (thorough) tamperings (root, value, query key bits, one byte moved between key and "
+                      "value in both directions, bitmap, requested key, each sibling hash changed/removed/added, query dropped, forged extra "
+                      "and forged deeper queries with F>T and F<T); full 8-bit sub-trees (256 keys differing in one byte, then reopen/update/"
+                      "no-op/prove); tries created and re-opened with keyLength 0. Evaluations = roots compared + verification observations; distinct = by full input.")
     ck.extra["traces_validated_against_impl"] = len(recs)
     ck.assume += ["SHA-256 has no collisions on the values met (hypothesis of the soundness theorems only)",
                   "values are non-empty byte strings (the trie stores 32-byte value hashes; empty = delete)"]
